@@ -470,7 +470,32 @@ def gen_special_path(rng):
     return segs, mode
 
 
+def scale_case(kind, data, s):
+    """the same shape in other user units: every coordinate (and radius) multiplied by the power of two s,
+    so that exact structure (denom == 0, start == end, double roots) is preserved"""
+    if kind == 'path':
+        return [(k, scale_case(k, d, s)) for k, d in data]
+    if kind == 'arc':
+        d = dict(data)
+        for f in ('start', 'end', 'radius'):
+            d[f] = data[f] * s
+        return d
+    return [p * s for p in data]
+
+
 def gen_case(rng):
+    """a base case, or (30%) the same shape in tiny (2^-30..2^-14 ~ 1e-9..6e-5) or huge (2^20..2^30 ~ 1e6..1e9)
+    user units; every judge is relative to the curve's own size"""
+    k, d, m = gen_base_case(rng)
+    u = rng.random()
+    if u < 0.18:
+        return k, scale_case(k, d, 2.0 ** rng.randint(-30, -14)), m + '@tiny-units'
+    if u < 0.30:
+        return k, scale_case(k, d, 2.0 ** rng.randint(20, 30)), m + '@huge-units'
+    return k, d, m
+
+
+def gen_base_case(rng):
     k = rng.choice(['line', 'quad', 'quad', 'cubic', 'cubic', 'cubic', 'cubic', 'arc', 'arc', 'arc', 'path', 'path'])
     if k == 'line': d, m = gen_line(rng)
     elif k == 'quad': d, m = gen_quad(rng)
@@ -534,6 +559,11 @@ def run(rep, tier, seed, replay=None):
             # hand-picked: a teardrop cubic loop (start == end) between two lines: M 0,0 L 2,0 C 6,5 -2,5 2,0 L 4,0
             todo.append(('path', [('line', [0j, 2 + 0j]), ('cubic', [2 + 0j, 6 + 5j, -2 + 5j, 2 + 0j]),
                                   ('line', [2 + 0j, 4 + 0j])], 'corpus/teardrop-loop'))
+            # hand-picked: ordinary cubics with interior x- and y-extrema drawn in tiny and in huge user units
+            for sc, nm in ((2.0 ** -17, 'tiny'), (2.0 ** -27, 'tiny'), (2.0 ** 27, 'huge')):
+                todo.append(('cubic', [p * sc for p in (0j, 3 + 4j, -2 + 4j, 1 + 0j)], 'corpus/loop@%s-units' % nm))
+                todo.append(('path', [('line', [-1 * sc + 0j, 0j]), ('cubic', [p * sc for p in (0j, 3 + 4j, -2 + 4j, 1 + 0j)]),
+                                      ('quad', [p * sc for p in (1 + 0j, 2 - 3j, 3 + 0j)])], 'corpus/path@%s-units' % nm))
             for _ in range(n):
                 todo.append(gen_case(rng))
         cases, meta = [], []
